@@ -5,8 +5,8 @@ from props import judges
 from props.common import TRUSTED_BASE, ASSUMPTIONS
 
 ID = "C07"
-LEAN_MODULES = ["LexVerif.Props.C07", "LexVerif.Props.RoundNE"]
-GEN = []
+LEAN_MODULES = ["LexVerif.Props.C07", "LexVerif.Props.RoundNE", "LexVerif.Props.Literals.WriteFloatRadix", "LexVerif.Props.Literals.WriteFloatShared", "LexVerif.Props.Literals.WriteFloatWrite"]
+GEN = ["literals"]
 TRUSTED = TRUSTED_BASE + [
     "write-float/src/radix.rs uses hardware f64 arithmetic (*, /, %, floor); it is not modelled in Lean. Each output is evaluated EXACTLY by the Lean oracle "
     "(grammar + big rationals) and its distance to the float is measured in ulps; the ulp bound is therefore established by measurement on the stream, not by proof",
